@@ -52,16 +52,17 @@ def cases(tier, seed):
                         'cfg': list(QUICK_LARGE[(i + seed * 5) % len(QUICK_LARGE)]), 'variant': VARIANTS[(i // 2 + seed) % 4]})
     else:
         n = 0
-        for rep in range(2):
+        for rep in range(4):
             for cfg in SMALL_OK:
                 for v in VARIANTS:
                     out.append({'seed': seed, 'idx': n, 'hashseed': n % 7, 'mode': 'exhaustive', 'menu': 'small', 'cfg': list(cfg), 'variant': v})
                     n += 1
-        for cfg in sr.menu('medium'):
-            for v in VARIANTS:
-                out.append({'seed': seed, 'idx': n, 'hashseed': n % 7, 'mode': 'exhaustive', 'menu': 'medium', 'cfg': list(cfg), 'variant': v})
-                n += 1
-        for rep in range(8):
+        for rep in range(3):
+            for cfg in sr.menu('medium'):
+                for v in VARIANTS:
+                    out.append({'seed': seed, 'idx': n, 'hashseed': n % 7, 'mode': 'exhaustive', 'menu': 'medium', 'cfg': list(cfg), 'variant': v})
+                    n += 1
+        for rep in range(24):
             for cfg in sr.menu('large'):
                 for v in VARIANTS:
                     out.append({'seed': seed, 'idx': n, 'hashseed': n % 7, 'mode': 'random', 'menu': 'large', 'cfg': list(cfg), 'variant': v, 'nocc': 20})
